@@ -20,10 +20,50 @@ type (
 	Cond      = sync.Cond
 )
 
+// registry of modelled primitives touched during explorations (so that an aborted execution
+// can be cleaned up)
+var (
+	regM  []*Mutex
+	regRW []*RWMutex
+)
+
+// ResetAll releases every modelled lock (after an aborted execution left threads parked).
+func ResetAll() {
+	for _, m := range regM {
+		m.owner = 0
+	}
+	for _, m := range regRW {
+		m.writer, m.readers = 0, 0
+	}
+}
+
+// Held reports whether any modelled lock is currently held.
+func Held() bool {
+	for _, m := range regM {
+		if m.owner != 0 {
+			return true
+		}
+	}
+	for _, m := range regRW {
+		if m.writer != 0 || m.readers != 0 {
+			return true
+		}
+	}
+	return false
+}
+
 // Mutex is a modelled mutex.
 type Mutex struct {
 	real  sync.Mutex
 	owner int // 0 = free, else thread id + 1
+	reg   bool
+}
+
+func (m *Mutex) register() {
+	if !m.reg {
+		m.reg = true
+		regM = append(regM, m)
+	}
 }
 
 // Lock acquires the mutex.
@@ -32,6 +72,7 @@ func (m *Mutex) Lock() {
 		m.real.Lock()
 		return
 	}
+	m.register()
 	sched.Point("Mutex.Lock", func() bool { return m.owner == 0 })
 	if m.owner != 0 {
 		panic("vsync: scheduled onto a held mutex")
@@ -70,6 +111,14 @@ type RWMutex struct {
 	real    sync.RWMutex
 	writer  int
 	readers int
+	reg     bool
+}
+
+func (m *RWMutex) register() {
+	if !m.reg {
+		m.reg = true
+		regRW = append(regRW, m)
+	}
 }
 
 // Lock acquires the write lock.
@@ -78,6 +127,7 @@ func (m *RWMutex) Lock() {
 		m.real.Lock()
 		return
 	}
+	m.register()
 	sched.Point("RWMutex.Lock", func() bool { return m.writer == 0 && m.readers == 0 })
 	m.writer = sched.Self() + 1
 }
@@ -101,6 +151,7 @@ func (m *RWMutex) RLock() {
 		m.real.RLock()
 		return
 	}
+	m.register()
 	sched.Point("RWMutex.RLock", func() bool { return m.writer == 0 })
 	m.readers++
 }
